@@ -166,6 +166,25 @@ def plan(tier, seed, rng):
             if f in (F_SELF, F_SELFX): saxes = daxes
             return acase("f", t, pk, f, ops, 1, pd, daxes, saxes)
         uniq(rc_cases, mk)
+    # ---- f2: rank-2 compile-time destinations with a row step >= 2 and a unit-step column range of at least one vector, every operator on
+    # each instance (the fixed 2-D view writes rows through its own SIMD loops, one per operator and per noalias write-back)
+    for i_, t in enumerate("fdil" * (3 if quick else 12)):
+        def mk():
+            f = [F_VIEW, F_AFFINE, F_PROD, F_SELF, F_SELFX, F_REUSE][(i_ // 4 + i_) % 6]
+            pd = [rng.choice([5, 6, 7, 9]), rng.choice([8, 9, 12, 16, 17])]
+            dyn_src = f == F_REUSE or rng.random() < 0.3
+            for _ in range(400):
+                dr, sr = overlapping_fixed(rng, pd[0], 2, rng.choice([2, 2, 3]))
+                if dr.norm[1] >= 2: break
+            for _ in range(400):
+                dc, sc = overlapping_fixed(rng, pd[1], 2, rng.choice([x for x in (4, 8, 16) if x <= pd[1]]))
+                if dc.norm[1] == 1: break
+            daxes = [dr, dc]
+            saxes = [Ax("s", N, a.extent()) for N, a in zip(pd, daxes)] if dyn_src else [sr, sc]
+            if f in (F_SELF, F_SELFX): saxes = daxes
+            ops = [0, 1, 2, 3, 4] if t != "l" else [0, 1, 2, 4]
+            return acase("f2", t, 0, f, ops, 1, pd, daxes, saxes)
+        uniq(rc_cases, mk)
     # ---- m: mixed lists (run-time integers / all / seq) on the destination, dynamic sources of the same kinds
     deckm = Deck([F_VIEW, F_AFFINE, F_PROD, F_SELF, F_REUSE])
     two = [("A", "s"), ("s", "A"), ("s", "i"), ("i", "s"), ("A", "i"), ("i", "A")]
